@@ -1699,7 +1699,7 @@ def _search_slip_one(ctx, rng, ref, caseseed, it0, it, dyadic):
             mk = masks[nm]
             if x.shape != y.shape or (mk.any() and np.abs(y - x @ Rm.T)[mk].max() > 40e-9 * L):
                 fail('rotated:' + nm, f'{nm} of the rotated pair of systems is not the rotated {nm} (rotation {Rm.tolist()}, box '
-                     f'vectors in the order {rows_}: cell {np.round(s0r.box.vects, 6).tolist()}, pbc {list(s0r.pbc)})', rotation=Rm.tolist())
+                     f'vectors in the order {rows_}: cell {np.round(s0r.box.vects, 6).tolist()}, pbc {[bool(x) for x in s0r.pbc]})', rotation=Rm.tolist())
     if coord is not None and dec_disp[adj].all():
         sgn = rng.choice([1.0, -1.0])
         mr, nr = (Rm @ np.array(m)).tolist(), (sgn * (Rm @ np.array(nn))).tolist()
@@ -3531,7 +3531,7 @@ def _sources(ctx, caseseed, it, tie):
 _LATTICE_SHELLS = {}
 
 
-def _lattice_shells(lat, R=9):
+def _lattice_shells(lat, R=11):
     """[(r2, [offsets])] of the fcc / bcc lattice, ascending; lengths in units of a/2, exact integers (complete up to
     radius R)."""
     if lat not in _LATTICE_SHELLS:
@@ -3609,7 +3609,8 @@ def _search_big(ctx, caseseed, it):
         size[axis] = mper if variant == 'shells256' else max(2, rng.choice([mper - 2, mper - 1, mper]))
     if variant == 'atoms':
         thr = rng.choice([4096, 4096, 8192, 16384, 65536]) if ctx.thorough else 4096
-        m1, m2 = rng.randint(max(mper, 7), 16), rng.randint(max(mper, 7), 16)
+        cb = int(round((thr / per) ** (1 / 3)))            # (roughly cubic blocks; the atom count lands just above the threshold)
+        m1, m2 = rng.randint(max(mper, cb - 3), cb + 3), rng.randint(max(mper, cb - 3), cb + 3)
         size = [m1, m2, max(mper, thr // (per * m1 * m2) + 1)]
         rng.shuffle(size)
     size = tuple(size)
@@ -3743,12 +3744,18 @@ def _search_big(ctx, caseseed, it):
         elif not np.isfinite(ny).all() or np.abs(ny).max() > 1e-8 / a:
             kb = int(np.abs(ny).reshape(n, -1).max(1).argmax())
             fail('Strain.nye', f'Strain(cutoff=).nye[{kb}] = {ny[kb].tolist()} for a homogeneous deformation (expected 0)', kb)
-    exp_h = s0p.atoms.pos @ (np.array(F) - np.identity(3)).T
+    # (F - I) x taken through the periodic boundaries of the deformed cell (far from the origin it exceeds half a cell)
+    exp_h, nh_, dech_ = _mi(s1h.box.vects, (True, True, True), s0p.atoms.pos @ (np.array(F) - np.identity(3)).T, np)
+    draw_ = s1hw.atoms.pos - s0p.atoms.pos
+    dech_ &= (np.abs(np.rint((exp_h - draw_) @ np.linalg.inv(s1h.box.vects))) <= 1).all(1)      # (within dvect's 27 images)
     d = _guard(lambda: am.displacement(s0p, s1hw))
-    kb = -2 if isinstance(d, _Raised) else -1 if d.shape != exp_h.shape else _bad(d, exp_h, tol)
+    kb = -2 if isinstance(d, _Raised) else -1 if d.shape != exp_h.shape else None
+    if kb is None and dech_.any():
+        kk_ = _bad(d[dech_], exp_h[dech_], tol)
+        kb = None if kk_ is None else int(np.where(dech_)[0][kk_])
     if kb is not None:
         fail('displacement', f'displacement under the homogeneous F = {F}: {d.text if kb == -2 else d[kb].tolist() if kb >= 0 else d.shape}, '
-             f'imposed (F-I)x = {exp_h[max(kb, 0)].tolist()}', kb)
+             f'imposed (F-I)x through the periodic boundaries = {exp_h[max(kb, 0)].tolist()}', kb)
 
 
 def search(ctx, broken):
